@@ -89,6 +89,7 @@ type Obligation struct {
 	Func   string
 	Clause string
 	Line   int
+	Syms   map[string]string // named terms of the state at the obligation (for replay templates: $name)
 }
 
 type loopInfo struct {
@@ -263,6 +264,9 @@ func (x *Exec) ordinal(kind string) int {
 
 func (x *Exec) oblige(st *State, kind string, name string, goal Term, pos token.Pos, safety bool, props []string) *Obligation {
 	o := &Obligation{Name: x.short + ":" + name, Kind: kind, Props: props, Prefix: x.out.Len(), Live: st.live, Goal: goal, Pos: pos, Safety: safety, Func: x.short}
+	if t, ok := st.heap["Ghost_lastrand"]; ok {
+		o.Syms = map[string]string{"lastrand": t}
+	}
 	x.obls = append(x.obls, o)
 	// after checking, the fact may be assumed on this path
 	x.assume(st, goal)
